@@ -64,10 +64,14 @@ struct Obs {
 }
 
 fn run_case(w: &World, sport: u16, rec: Option<&AuditRec>, method: &str, url: &str) -> Obs {
+    run_case_on(w, 3080, sport, rec, method, url)
+}
+
+fn run_case_on(w: &World, listener: u16, sport: u16, rec: Option<&AuditRec>, method: &str, url: &str) -> Obs {
     let cur = w.hosts.cursors();
     let body: Option<&[u8]> = if method == "POST" || method == "PUT" { Some(b"payload") } else { None };
     let req = build_request(method, url, &[("Host", b"metadata"), ("Metadata", b"true")], body, None);
-    let status = match w.connect(Some(sport), rec) {
+    let status = match w.connect_port(listener, Some(sport), rec) {
         Ok(mut c) => {
             let r = c.send(&req).map_err(|e| e.to_string()).and_then(|_| c.read_response(false, Duration::from_secs(10)).map(|m| m.status()));
             c.close();
@@ -421,6 +425,115 @@ fn main() {
     }
     res.cov("port_reuse_requests", reuse_cases);
 
+    // ---- family 5: the program behind a pid changes (exec) between two connections of that pid; rules tell callers
+    // apart by processName / exePath: each connection is judged by the program running when it was made
+    let mut exec_cases = 0u64;
+    if replay.is_none() && !only_c03 {
+        use std::io::Write;
+        use std::os::unix::process::CommandExt;
+        for p in ["/usr/bin/vt-launcher", "/usr/bin/vt-after"] {
+            if !std::path::Path::new(p).exists() {
+                std::fs::copy(if p.ends_with("launcher") { "/bin/sh" } else { "/bin/sleep" }, p).unwrap();
+            }
+        }
+        let by = |field: &str, value: &str| -> Option<gpa_harness::key_keeper::key::AuthorizationItem> {
+            Some(
+                serde_json::from_value(json!({
+                    "defaultAccess": "deny", "mode": "enforce", "id": "exec-family",
+                    "rules": {"privileges": [{"name": "p", "path": "/a"}], "roles": [{"name": "r", "privileges": ["p"]}],
+                              "identities": [{"name": "i", field: value}], "roleAssignments": [{"role": "r", "identities": ["i"]}]}
+                }))
+                .unwrap(),
+            )
+        };
+        w.set_rules(WS, None);
+        w.set_rules(HOSTGA, None);
+        for (field, value, grants_before) in [("processName", "vt-launcher", true), ("exePath", "/usr/bin/vt-launcher", true), ("processName", "vt-after", false), ("exePath", "/usr/bin/vt-after", false)] {
+            for n_before in [1usize, 3] {
+                w.set_rules(IMDS, by(field, value));
+                let mut child = std::process::Command::new("/usr/bin/vt-launcher")
+                    .args(["-c", "read x; exec /usr/bin/vt-after 100000"])
+                    .stdin(std::process::Stdio::piped())
+                    .stdout(std::process::Stdio::null())
+                    .uid(1001)
+                    .spawn()
+                    .unwrap_or_else(|e| vcommon::result::machinery(&format!("spawn launcher: {e}")));
+                let pid = child.id();
+                let rec = AuditRec::to(IMDS, 1001, pid, false);
+                let case = json!({"family": "exec-between-connections", "identity_by": field, "value": value, "connections_before_exec": n_before});
+                for _ in 0..n_before {
+                    sport = if sport >= 29999 { 20000 } else { sport + 1 };
+                    let o = run_case(&w, sport, Some(&rec), "GET", "/a/x");
+                    exec_cases += 1;
+                    let want = if grants_before { 200 } else { 403 };
+                    if o.status != Ok(want) || (!grants_before && o.bytes.iter().sum::<usize>() != 0) {
+                        res.violation("exec:before-exec", &format!("pid {pid} running /usr/bin/vt-launcher, rules grant {field}={value}: got {:?}, {:?} bytes upstream (expected {want})", o.status, o.bytes), case.clone());
+                    }
+                }
+                let _ = child.stdin.as_mut().unwrap().write_all(b"go\n");
+                let t0 = std::time::Instant::now();
+                while std::fs::read_link(format!("/proc/{pid}/exe")).map(|p| p.to_string_lossy() != "/usr/bin/vt-after").unwrap_or(true) {
+                    if t0.elapsed() > Duration::from_secs(5) {
+                        vcommon::result::machinery("launcher did not exec the second program");
+                    }
+                    std::thread::sleep(Duration::from_millis(2));
+                }
+                sport = if sport >= 29999 { 20000 } else { sport + 1 };
+                let o = run_case(&w, sport, Some(&rec), "GET", "/a/x");
+                exec_cases += 1;
+                nontrivial.insert(format!("exec|{field}|{value}|{n_before}"));
+                let want = if grants_before { 403 } else { 200 };
+                if o.status != Ok(want) || (grants_before && o.bytes.iter().sum::<usize>() != 0) {
+                    res.violation(
+                        if grants_before { "exec:stale-program-authorized" } else { "exec:after-exec" },
+                        &format!("pid {pid} made {n_before} connection(s) as /usr/bin/vt-launcher, then exec'ed /usr/bin/vt-after; rules grant {field}={value}: the connection after the exec got {:?}, {:?} bytes upstream (expected {want})", o.status, o.bytes),
+                        case.clone(),
+                    );
+                }
+                let _ = child.kill();
+                let _ = child.wait();
+            }
+        }
+    }
+    res.cov("exec_between_connections_requests", exec_cases);
+
+    // ---- family 6: the policy lookup fails (the key keeper shared-state task is gone: second listener of the real
+    // server on a handle without actor): whatever the caller, URL and method, 500 and not one byte upstream
+    let mut lookup_cases = 0u64;
+    if replay.is_none() && !only_c03 {
+        w.start_listener_without_key_keeper_actor(3081);
+        for ep in [WS, HOSTGA, IMDS] {
+            w.set_rules(ep, None);
+        }
+        for d in [Some(WS), Some(HOSTGA), Some(IMDS), None] {
+            for who in [&whos[0], &whos[1]] {
+                for url in ["/a/x", "/vmAgentLog", "/machine/?comp=telemetrydata", "/a/../b"] {
+                    for method in methods {
+                        sport = if sport >= 29999 { 20000 } else { sport + 1 };
+                        let rec = d.map(|d| AuditRec::to(d, who.uid, who.pid, who.is_root));
+                        let o = run_case_on(&w, 3081, sport, rec.as_ref(), method, url);
+                        lookup_cases += 1;
+                        nontrivial.insert(format!("lookup|{d:?}|{}|{url}|{method}", who.label));
+                        let want: &[u16] = match d {
+                            None if url.contains("..") => &[404, 421],
+                            None => &[421],
+                            Some(_) if url.contains("..") => &[404, 500],
+                            Some(_) => &[500],
+                        };
+                        if !o.status.as_ref().map(|s| want.contains(s)).unwrap_or(false) || o.bytes.iter().sum::<usize>() != 0 {
+                            res.violation(
+                                "lookup-failure:not-refused",
+                                &format!("policy lookup cannot succeed (key keeper task gone); {method} {url} to {d:?} by {}: got {:?}, {:?} bytes upstream (expected {want:?} and nothing upstream)", who.label, o.status, o.bytes),
+                                json!({"family": "policy-lookup-failure", "dest": d, "who": who.label, "url": url, "method": method}),
+                            );
+                        }
+                    }
+                }
+            }
+        }
+    }
+    res.cov("policy_lookup_failure_requests", lookup_cases);
+
     // determinism gate: replay the first cases and demand identical observations
     let mut gate_ok = true;
     cur_policy = usize::MAX;
@@ -452,7 +565,7 @@ fn main() {
     for p in &panics {
         res.violation(&format!("panic:{}", p.split(" at=").nth(1).unwrap_or("?").split(' ').next().unwrap_or("?")), p, json!({"note": "panic while running the case product"}));
     }
-    res.cov("evaluations", total as u64 + ka_cases + pair_cases + reuse_cases);
+    res.cov("evaluations", total as u64 + ka_cases + pair_cases + reuse_cases + exec_cases + lookup_cases);
     res.cov("distinct_nontrivial", nontrivial.len() as u64);
     res.cov("expected_relayed", relayed_n);
     res.cov("expected_refused", refused_n);
@@ -462,11 +575,11 @@ fn main() {
     res.cov(
         "rule",
         format!(
-            "full product of {} destinations (incl. direct/no record, self, other) x {} callers (incl. one whose executable path and command line are not valid UTF-8) x {} rule sets (endpoint under test gets the set, the other endpoints a contrasting one) x {} URLs (incl. the two signature-exempt upload URLs) x 3 methods, one fresh TCP connection with a chosen source port and an injected kernel audit record each; plus every ordered pair of rule sets (A,B) applied A,B,A to one kept-alive attributed connection (policy in force at request time must decide); plus every ordered pair of records over uid (0,1001) x two pids x is_root (0,1) on two consecutive connections per endpoint (each connection is judged by its own record); plus a direct connection from the source port of 1 or 2 earlier attributed and served connections, 0 and 30 ms after them, per endpoint (must get 421, nothing upstream); non-trivial = the reference says the request must be refused (distinct (dest, caller, rule set, url) counted)",
+            "full product of {} destinations (incl. direct/no record, self, other) x {} callers (incl. one whose executable path and command line are not valid UTF-8) x {} rule sets (endpoint under test gets the set, the other endpoints a contrasting one) x {} URLs (incl. the two signature-exempt upload URLs) x 3 methods, one fresh TCP connection with a chosen source port and an injected kernel audit record each; plus every ordered pair of rule sets (A,B) applied A,B,A to one kept-alive attributed connection (policy in force at request time must decide); plus every ordered pair of records over uid (0,1001) x two pids x is_root (0,1) on two consecutive connections per endpoint (each connection is judged by its own record); plus a direct connection from the source port of 1 or 2 earlier attributed and served connections, 0 and 30 ms after them, per endpoint (must get 421, nothing upstream); plus a caller that makes 1 or 3 connections, exec()s another program in the same pid and connects again, under rules that grant the first or the second program by processName / exePath (each connection judged by the program running when it was made); plus 4 destinations x 2 callers x 4 URLs x 3 methods on a second listener of the real server whose key keeper handle has no actor behind it (every policy lookup fails: 500 or, for direct connections, 421, nothing upstream); non-trivial = the reference says the request must be refused (distinct (dest, caller, rule set, url) counted)",
             dests.len(), whos.len(), pols.len(), urls.len()
         ),
     );
     res.assume("attribution records are written into the real kernel audit_map by the harness in the layout of sock_addr_audit_entry (layout conformance with the kernel program is C06)");
-    res.assume("claims == None and rule-lookup failure branches are unreachable on Linux without killing an actor; not exercised");
+    res.assume("the rule-lookup failure branch is reached through a key keeper handle without actor (guarded hook verif_without_actor); claims == None is unreachable on Linux and not exercised");
     std::process::exit(res.finish());
 }
